@@ -31,9 +31,9 @@ T = {
  "C04": ("Coq proof (chunk independence of the whole fit loops for GMM and k-means and of the cluster variances/weights; order independence of task DAGs, star-graph result and readers-before-writer; isolated = shared under the copy-back inclusion decided on attribute lists generated from /repo/src) + exploration under a custom Dask scheduler",
          "Theorems: fit on any row chunking = fit on the whole array (model, reported values and iteration count are all in the result); every valid schedule of a task graph yields the denotation; the M-step task starts after all block tasks; copy-back covers the M-step's writes for the lists extracted from the current source. The implementation is run under a scheduler that shuffles the ready set and optionally cloudpickles every task, over row and feature chunkings, against the in-memory fit.",
          "OS-thread interleavings inside NumPy kernels are not modelled; the ISV/JFA accumulators are proved additive over sessions/classes (FAAcc); WCCN/whitening are covered by the exploration and the permutation theorems of C14.", "DESIGN.md 4/C04"),
- "C07": ("Coq proof (each block update is the exact argmax of the joint log-posterior; one more iteration never lowers it for ISV and JFA; a joint fixed point is the unique global mode, by an exact second-order expansion) under the contract of np.linalg.inv + enrolment correspondence + independent dense-solve oracle",
+ "C07": ("Coq proof (each block update is the exact argmax of the joint log-posterior; one more iteration never lowers it for ISV and JFA; a joint fixed point is the unique global mode, by an exact second-order expansion; the unique mode exists and the iterates - hence the returned factors - converge to it, by the linear-rate argument for exact cyclic block ascent on a 1-strongly concave quadratic) under the contract of np.linalg.inv + enrolment correspondence + independent dense-solve oracle",
          "Theorems over R for any numbers of components, features, ranks and sessions (fractional counts allowed). ISVMachine/JFAMachine.enroll compared with the float model; the oracle evaluates the joint posterior independently after 1..8 iterations with D of order 1e-3..2 and checks approach to the directly solved mode.",
-         "inverse = oracle with an operator-form contract (incl. symmetry); convergence of the iterates is validated numerically (partial).", "DESIGN.md 4/C07"),
+         "inverse = oracle with an operator-form contract (incl. symmetry); the convergence theorem is over R (binary64 iterates are compared with the float model and with the directly solved mode).", "DESIGN.md 4/C07"),
  "C08": ("Coq proof (score formula, normalisation and zero-frame guard, zero for the UBM, linearity, additivity, shape, and the derivative identity for any numbers of components/features/samples via Coquelicot) + correspondence over all input kinds + finite-difference oracle",
          "Theorems over R incl. is_derive (sum_i ll(shifted UBM) x_i) 0 (score). linear_scoring compared with the float model for machines/arrays, single/list statistics, scalar/(C,D)/(T,C,D) offsets, with/without normalisation, zero-frame statistics, MAP machine as UBM.",
          "Reals axioms (Coquelicot).", "DESIGN.md 4/C08"),
@@ -64,7 +64,7 @@ T = {
  "C16": ("Coq proof (explicit threading of the global generator: reseeded initialisation and seeded initialisers ignore the incoming state and any history of fits/draws; statistics, WCCN scatter and grouping invariant under sample, class and label permutations; whole k-means and GMM training runs invariant under any permutation of the training samples; seeding facts generated from /repo/src) + repeated-fit / permutation oracle",
          "Theorems + generated structural obligation (create_UVD calls np.random.seed(random_state) before drawing; k_init receives random_state; no other use of the global generator in k-means/GMM/WCCN); the oracle refits with perturbed global RNG states and shuffled histories (bit-identical) and with permuted samples / class ids.",
          "D12 (seeded string initialisers depend on row order, inside dask_ml) is a known finding.", "DESIGN.md 4/C16"),
- "C15": ("Coq proof (under x -> a*x+b per feature: per-component and total log-likelihood shift by -sum ln|a|, responsibilities invariant, statistics equivariant, one ML EM step equivariant, linear scores invariant with offsets scaled; i-vector precision / linear term / projection invariant and one i-vector training iteration equivariant; k-means distances scale by s^2 and assignments are invariant under translation + uniform scaling; the k-means stopping rule is scale-invariant, the GMM one is not: refuted with a witness) + metamorphic oracle on the implementation",
+ "C15": ("Coq proof (under x -> a*x+b per feature: per-component and total log-likelihood shift by -sum ln|a|, responsibilities invariant, statistics equivariant, one ML EM step equivariant, linear scores invariant with offsets scaled; i-vector precision / linear term / projection invariant and one i-vector training iteration equivariant; k-means distances scale by s^2 and assignments are invariant under x -> s*Qx+t with Q orthogonal (rotations, reflections), one k-means iteration and whole k-means training runs commute with that map (centroids mapped, criteria times s^2, same iteration count); the k-means stopping rule is scale-invariant, the GMM one is not: refuted with a witness) + metamorphic oracle on the implementation",
          "Theorems over R for any sizes; the oracle trains/scores on transformed inputs (scales of random sign, 1e-3..1e3, shifts up to 1e2; rotations for k-means) for GMM ML/MAP with all switch settings, linear scoring, ISV/JFA factors/scores/client mean, i-vectors.",
          "MAP with variance adaptation is not equivariant today: known finding D2 (shared with C05); threshold-stopped GMM training depends on the units through the relative-change rule: known finding D14; a numerically starved component's mean is origin-dependent through the count floor: known finding D15 (both with Coq refutation witnesses); the ISV/JFA factor invariances are theorems where Proofs/FAAffine.v is present, otherwise covered by the oracle.", "DESIGN.md 4/C15"),
 }
